@@ -240,6 +240,10 @@ func onRuleUpdate(rawResRulesMap map[string][]*Rule) (err error) {
 			}
 		}
 	}()
+	// what this load changes in the rule-in-force table takes effect when its result is published
+	beginRuleInForceEdits()
+	published := false
+	defer func() { endRuleInForceEdits(published) }()
 	// ignore invalid rules
 	validResRulesMap := make(map[string][]*Rule, len(rawResRulesMap))
 	for res, rules := range rawResRulesMap {
@@ -294,6 +298,7 @@ func onRuleUpdate(rawResRulesMap map[string][]*Rule) (err error) {
 	breakerRules = validResRulesMap
 	breakers = newBreakers
 	updateMux.Unlock()
+	published = true
 	currentRules = rawResRulesMap
 
 	logging.Debug("[CircuitBreaker onRuleUpdate] Time statistics(ns) for updating circuit breaker rule", "timeCost", util.CurrentTimeNano()-start)
@@ -311,6 +316,10 @@ func onResourceRuleUpdate(res string, rawResRules []*Rule) (err error) {
 			}
 		}
 	}()
+	// what this load changes in the rule-in-force table takes effect when its result is published
+	beginRuleInForceEdits()
+	published := false
+	defer func() { endRuleInForceEdits(published) }()
 
 	validResRules := make([]*Rule, 0, len(rawResRules))
 	for _, rule := range rawResRules {
@@ -344,6 +353,7 @@ func onResourceRuleUpdate(res string, rawResRules []*Rule) (err error) {
 		breakers[res] = newCbsOfRes
 	}
 	updateMux.Unlock()
+	published = true
 	// keep a copy of the list: the caller may go on using its slice (replace an element and load it
 	// again), and a slice compared with itself always looks unchanged
 	currentRules[res] = append([]*Rule(nil), rawResRules...)
